@@ -157,7 +157,7 @@ func (w *Worker) fail(cause error) error {
 	w.respF.Close()
 	var ee *exec.ExitError
 	if errors.As(err, &ee) {
-		if ws, ok := ee.Sys().(syscall.WaitStatus); ok && ws.Signaled() && ws.Signal() == syscall.SIGKILL {
+		if ws, ok := ee.Sys().(syscall.WaitStatus); ok && ws.Signaled() && (ws.Signal() == syscall.SIGKILL || ws.Signal() == syscall.SIGTERM || ws.Signal() == syscall.SIGINT) {
 			if !strings.Contains(w.stderr.String(), "SIGQUIT") {
 				return ErrKilled
 			}
